@@ -336,24 +336,25 @@ def oracle_c13(c: Case):
                 bad_names.append(fr.name)
         if bad_names:
             out.append((f"{m}:names", f"not rules of the grammar: {bad_names!r}"))
+        if not isinstance(c.text, str):
+            continue  # rendering is evaluated on the concrete witness of every path (see run_member)
         try:
             msg = str(e)
             if not isinstance(msg, str):
                 out.append((f"{m}:render", "str() did not return str"))
             _ = e.detailed_message()
-        except (symx.Unsupported, symx.Inconclusive):
-            raise
         except Exception as ex:  # noqa: BLE001
             out.append((f"{m}:render", f"str(error) raised {type(ex).__name__}: {ex}"))
             continue
-        # line:column and source line shown are those of p ('\n' line breaks only)
-        if p >= 0:
+        if p >= 0 and not any(chr(b) in c.text for b in symx.LINE_BOUNDARIES if b != 0x0A):
             ec = _error_context(c)
             line, lineno, col = ec(c.text, p)
             rl, rc, ls, le = _line_col_ref(c.text, p)
             want_line = c.text[ls:le].rstrip() if le > ls else ""
-            if (lineno, col) != (rl, rc) or not _same_chars(line, want_line):
+            if (lineno, col) != (rl, rc) or line != want_line:
                 out.append((f"{m}:linecol", f"p={p} shown={lineno}:{col} want={rl}:{rc} line[{ls}:{le}]"))
+            if f"{lineno}:{col}" not in msg:
+                out.append((f"{m}:linecol", f"message does not show {lineno}:{col}"))
     return out
 
 
@@ -411,12 +412,12 @@ ORACLES = {
 # the unit
 
 
+@core.task_fn("family")
 def run_member(task: dict) -> dict:
     """task: unit, prop, member, rule, nks [(n,k)...], modes [..], use_ref, regions {key: region},
     max_paths, budget_s, assume ('ascii'|'nolinebreaks'|None)."""
     prop = task["prop"]
     member = task["member"]
-    rule = task["rule"]
     res = core.new_result(task["unit"])
     oracle = ORACLES[prop]
     t_end = time.time() + task.get("budget_s", 120)
@@ -427,7 +428,7 @@ def run_member(task: dict) -> dict:
         return res
     ref = Ref(member["rules"]) if task.get("use_ref") else None
     ascii_only = "istr" in member["features"] or task.get("assume") == "ascii"
-    no_other_breaks = prop == "C13"
+    no_other_breaks = False
     if prop == "C01":
         # side conditions: generate() deterministic (same object, twice)
         for m, p in modes.parsers.items():
@@ -440,12 +441,12 @@ def run_member(task: dict) -> dict:
         for m, err in modes.errors.items():
             res["failures"].append(_static_failure(task, f"build-exc {err}", m))
 
-    for n, k in task["nks"]:
+    for rule, n, k in [(r, n, k) for r, nks in task["rules"] for n, k in nks]:
         key = f"{rule}|n{n}k{k}"
         eng = Engine()
         holder: dict[str, Any] = {}
 
-        def fn(e, n=n, k=k):
+        def fn(e, n=n, k=k, rule=rule):
             text = SymStr.fresh(e, n, hi=0x7F if ascii_only else symx.MAXCP) if n else ""
             if no_other_breaks and n:
                 for ch in text.ch:
@@ -475,7 +476,7 @@ def run_member(task: dict) -> dict:
                 cc = Case(prop, member, rule, n, k, w, modes, ref).run()
                 cfails = oracle(cc)
                 if cc.res != results or cc.refres != refres or [f[0] for f in cfails] != [f[0] for f in fails]:
-                    if prop == "C06" and cc.res == results and {f[0] for f in fails} <= {f[0] for f in cfails}:
+                    if prop in ("C06", "C13") and cc.res == results and {f[0] for f in fails} <= {f[0] for f in cfails}:
                         fails = cfails  # content-level checks exist only concretely
                     else:
                         res["harness_errors"].append(
@@ -530,7 +531,7 @@ def _vars_of(text):
 
 def _static_failure(task, what, mode):
     return {
-        "key": f"{task['rule']}|static",
+        "key": "static",
         "kind": f"{mode}:{what.split()[0]}",
         "detail": what,
         "witness": "",
